@@ -3,12 +3,12 @@ from gosym.check import Task
 
 ID = 'C06'
 PKG = 'pkg/frame'
-HARNESS_FILES = ['pkg/frame/zz_verif_common.go', 'pkg/frame/zz_verif_c06.go', 'pkg/frame/zz_verif_dialect.go',
+HARNESS_FILES = ['pkg/frame/zz_verif_common.go', 'pkg/frame/zz_verif_c06.go', 'pkg/frame/zz_verif_c01.go', 'pkg/frame/zz_verif_dialect.go',
                  'pkg/frame/zz_verif_c02.go', 'pkg/frame/zz_verif_c05.go', 'pkg/frame/zz_verif_export.go',
                  'pkg/frame/zz_verif_msgs.go', 'pkg/streamwriter/zz_verif_c09.go', 'zz_verif_node.go', 'zz_verif_c10.go']
 KERNEL_PKGS = ['.']
 CLOCK_PKGS = ['pkg/streamwriter']
-ROOTS = ['verifHarness_C06', 'verifHarness_C09_step']
+ROOTS = ['verifHarness_C06', 'verifHarness_C09_step', 'verifHarness_C01_v2']
 ALLOW = 'bufio,io,encoding/binary,errors,bytes'
 INITS = 'io,bufio,errors,github.com/bluenviron/gomavlib/v3/pkg/message'
 OPTIONS = {}
@@ -30,6 +30,9 @@ def tasks(tier):
     for shape in range(4):
         for raw in (0, 1):
             ts.append(Task('verifHarness_C09_step', [2, 1, shape, 2, raw], {'x25_uf': True}, pkg='pkg/streamwriter'))
+    # (c) the frame writer emits the whole 13-byte signature block for the largest frames
+    for n in (254, 255):
+        ts.append(Task('verifHarness_C01_v2', [n, 1, 0]))
     # (d) the node hands its keys to each channel's reader and writer
     for version in (1, 2):
         for ik in (0, 1):
